@@ -453,3 +453,21 @@ def check_recovery_release_len(ctx, inst):
                 ctx.check(same, inst, "PROVENANCE", b.path, "start and length of a released extent describe the same generation (sector, key and value_len of one record)",
                           b.where(n.id), {"start": start.show()[:120], "count": count.show()[:160]})
     ctx.check(n_sites >= 2, inst, "anchor", "-", "owned-extent releases in recovery (>= 2, found %d)" % n_sites, None)
+
+
+def locate_call(prog, body, name, depth=0):
+    """(body', sites): the body that *directly* calls `name` when starting from `body` - `body` itself, or the one product
+    helper (followed up to two levels) through which it reaches `name`. Lets a rule about "the place where X is called" survive
+    the extraction of that place into a helper."""
+    sites = [n.id for n in body.calls() if R.call_matches(n.ev, name)]
+    if sites or depth > 2:
+        return body, sites
+    via = []
+    for n in body.calls():
+        for t in prog.targets(n.ev):
+            if t and t in prog.bodies and t != body.path and (path_matches(t, name) or prog.reaches_name(t, name)):
+                via.append(t)
+    via = sorted(set(via))
+    if len(via) == 1:
+        return locate_call(prog, prog.bodies[via[0]], name, depth + 1)
+    return body, []
